@@ -178,46 +178,73 @@ func runC17(p *Program, r *Result) {
 			}
 		}
 		allowed := ""
-		okLoop := loop != nil && len(loop.earlyExits()) == 0
-		if okLoop {
-			// in-loop: !ContainsRune(allowed, r) -> return false ; true only after the loop
-			okLoop = false
-			for _, ret := range returnsOf(vpn) {
-				c, isC := ret.Results[0].(*ssa.Const)
-				if !isC {
-					continue
-				}
-				facts := tb.FactsAt(ret.Block())
-				if c.Value.ExactString() == "false" && loop.inLoop(ret.Block()) {
-					if a, ok := findFact(facts, func(a Atom) bool {
-						return a.Kind == "call" && !a.Pol && a.Call.S == "strings.ContainsRune" && len(a.Call.Args) == 2 && a.Call.Args[0].Op == "Const" && a.Call.Args[1].String() == "Next(Range(P1)).2"
-					}); ok {
-						okLoop = true
-						allowed, _ = strconv.Unquote(a.Call.Args[0].S)
+		// E10 first: the accepted set by abstract evaluation, whatever the shape of the test
+		if ep, _ := p.elemPredicate(vpn, func(v ssa.Value) bool { return v == ssa.Value(vpn.Params[0]) }); ep != nil {
+			want := specConst(r, "plugin.validNameChars")
+			var extra []int64
+			for _, c := range want {
+				extra = append(extra, int64(c))
+			}
+			eq, ok, w := ep.Equals(func(c int64) bool { return c >= 0 && strings.ContainsRune(want, rune(c)) }, extra)
+			if ok {
+				trueAfter := true
+				for _, ret := range returnsOf(vpn) {
+					if c, isC := ret.Results[0].(*ssa.Const); isC && c.Value.ExactString() == "true" {
+						if !p.completedAt(ep.Loop, ret.Block()) {
+							trueAfter = false
+						}
+					} else if !isC {
+						trueAfter = false
 					}
 				}
-				if c.Value.ExactString() == "true" && !(ret.Block() == loop.Exit || loop.Exit.Dominates(ret.Block())) {
-					okLoop = false
-					break
-				}
+				r.Check(trueAfter, vpn.String(), "loop", "", "every element is tested; true only after the loop", "validPluginName returns true before every character was tested")
+				r.Check(eq, vpn.String(), "alphabet", "", "the accepted character set equals the specified set", "the accepted character set differs from the specification's at "+strconv.QuoteRune(rune(w)))
+				goto r175
 			}
 		}
-		r.Check(okLoop, vpn.String(), "loop", "", "every rune is tested against the allow-list; true only after the loop", "validPluginName does not test every rune against a constant allow-list with `return false` on the first miss")
-		want := specConst(r, "plugin.validNameChars")
-		sortStr := func(s string) string {
-			rs := []rune(s)
-			sort.Slice(rs, func(i, j int) bool { return rs[i] < rs[j] })
-			// dedupe
-			var out []rune
-			for i, c := range rs {
-				if i == 0 || c != rs[i-1] {
-					out = append(out, c)
+		{
+			okLoop := loop != nil && len(loop.earlyExits()) == 0
+			if okLoop {
+				// in-loop: !ContainsRune(allowed, r) -> return false ; true only after the loop
+				okLoop = false
+				for _, ret := range returnsOf(vpn) {
+					c, isC := ret.Results[0].(*ssa.Const)
+					if !isC {
+						continue
+					}
+					facts := tb.FactsAt(ret.Block())
+					if c.Value.ExactString() == "false" && loop.inLoop(ret.Block()) {
+						if a, ok := findFact(facts, func(a Atom) bool {
+							return a.Kind == "call" && !a.Pol && a.Call.S == "strings.ContainsRune" && len(a.Call.Args) == 2 && a.Call.Args[0].Op == "Const" && a.Call.Args[1].String() == "Next(Range(P1)).2"
+						}); ok {
+							okLoop = true
+							allowed, _ = strconv.Unquote(a.Call.Args[0].S)
+						}
+					}
+					if c.Value.ExactString() == "true" && !(ret.Block() == loop.Exit || loop.Exit.Dominates(ret.Block())) {
+						okLoop = false
+						break
+					}
 				}
 			}
-			return string(out)
+			r.Check(okLoop, vpn.String(), "loop", "", "every rune is tested against the allow-list; true only after the loop", "validPluginName does not test every rune against a constant allow-list with `return false` on the first miss")
+			want := specConst(r, "plugin.validNameChars")
+			sortStr := func(s string) string {
+				rs := []rune(s)
+				sort.Slice(rs, func(i, j int) bool { return rs[i] < rs[j] })
+				// dedupe
+				var out []rune
+				for i, c := range rs {
+					if i == 0 || c != rs[i-1] {
+						out = append(out, c)
+					}
+				}
+				return string(out)
+			}
+			r.Check(okLoop && sortStr(allowed) == sortStr(want), vpn.String(), "alphabet", "", "allow-list equals the specified set", "allow-list is "+strconv.Quote(sortStr(allowed))+", the specification's set is "+strconv.Quote(sortStr(want)))
 		}
-		r.Check(okLoop && sortStr(allowed) == sortStr(want), vpn.String(), "alphabet", "", "allow-list equals the specified set", "allow-list is "+strconv.Quote(sortStr(allowed))+", the specification's set is "+strconv.Quote(sortStr(want)))
 	}
+r175:
 
 	// ---- R17.5
 	r.Rule("R17.5", "plugins are constructed only from explicit command-line input", 4)
